@@ -137,6 +137,15 @@ def gen_plan(seed, index, tier):
     }
     # history: an earlier fit of the same estimator object on the same X with other labels/groups
     plan["prior_rows"] = derive_rows(rng, rows) if (index >= 40 and rng.random() < 0.2) else None
+    if index >= 40 and rng.random() < 0.05:
+        # labels aligned with two equally sized groups: an exact LP vertex can cancel every signed weight
+        half = rng.randint(2, 6)
+        rows = [(rng.randint(0, 1), 0, 1) for _ in range(half)] + [(rng.randint(0, 1), 1, 0) for _ in range(half)]
+        if len({r[0] for r in rows}) < 2:
+            rows[0] = (1 - rows[0][0], rows[0][1], rows[0][2])
+        rng.shuffle(rows)
+        plan.update(rows=rows, moment=rng.choice(["DP", "DP", "EO", "ERP"]), bound_kind="diff", ratio=1.0, lp=True,
+                    max_iter=rng.choice([3, 5, 7, 10]), prior_rows=None, aligned=True)
     return plan
 
 
@@ -283,6 +292,10 @@ def execute(plan, ctx):
         if not same:
             ctx.fail("C08.clock_dependence", "weights_/best_gap_/best_iter_ differ under an all-stall clock")
     # reach probes: the rare conditions under which bookkeeping slips become visible
+    if plan.get("aligned"):
+        ctx.probe("labels_aligned_with_groups")
+    if int(getattr(eg, "n_oracle_calls_dummy_returned_", 0)) > 0:
+        ctx.probe("oracle_call_with_constant_relabelling")
     if bi != int(eg.last_iter_):
         ctx.probe("best_iter_before_last_iter")
     if list(w.index) != sorted(w.index):
